@@ -47,6 +47,7 @@ import CatVerif.Proofs.Steps.Found
 import CatVerif.Proofs.Steps.Resolve
 import CatVerif.Proofs.Steps.Lanes
 import CatVerif.Proofs.Setters.Prepare
+import CatVerif.Proofs.Steps.Leaves
 namespace Cat
 open St
 
@@ -456,5 +457,12 @@ theorem C02_counters_unbounded :
     Gen.width_obj_index = 64 ∧
     Gen.width_obj_length = 64 ∧
     Gen.width_obj_partial_cntr = 64 := by decide
+
+/-- the walk over the command groups — which entry a table index names, and whether that entry or its group is disabled —
+is the transliteration of `get_command_by_index` / `is_command_disable`, emitted while their bodies have the recorded form
+(translator item T22) -/
+theorem C02_walk_generated (D : Desc) (i : Nat) :
+    cmdByIndex D.groups i = Gen.get_command_by_index D i ∧ disabledByIndex D.groups i = Gen.is_command_disable D i :=
+  ⟨cmdByIndex_generated D i, disabledByIndex_generated D i⟩
 
 end Cat
